@@ -88,7 +88,7 @@ Theorem write_through_refuted :
 Proof.
   exists (Stack 0 [3] [Leaf 0 [3]; Leaf 1 [3]]), [ITen [2] [1; 0]], [2; 3].
   eexists. eexists. eexists. split; [|split].
-  - apply (wf_stack 0 [3] [Leaf 0 [3]; Leaf 1 [3]] [3]); [discriminate| |cbn; lia]. repeat constructor.
+  - apply (wf_stack 0 [3] [Leaf 0 [3]; Leaf 1 [3]] [3]); [discriminate| |cbn; lia]. wf_lit.
   - vm_compute. reflexivity.
   - left. reflexivity.
 Qed.
